@@ -104,7 +104,7 @@ PROPS["C06"] = {
         {"bin": "hv", "args": ["c06"]},
         {"bin": "hvt", "args": ["c06"], "tag": "tokio"},
     ],
-    "min": {"quick": {"evaluations": 50_000, "files_served_intact": 1000, "redirects_301": 50, "availability_requests": 1000},
+    "min": {"quick": {"evaluations": 50_000, "files_served_intact": 1000, "redirects_301": 50, "availability_requests": 1000, "over_the_wire_files_intact": 30},
             "thorough": {"evaluations": 1_000_000}},
     "assumptions": [],
     "level_text": "The three real handlers (threaded runtime) and the tokio runtime's serve_dir / serve_as_file_path are called in-process on generated directory trees with uniquely tagged file contents (a few bytes to 5 MiB) and canary files outside the root, for every file's own path and for all compositions of traversal/encoding segments to depth 3 (4 thorough); each response is judged by the confinement rule and by an independent resolver of the documented lookup rules.",
@@ -171,7 +171,7 @@ PROPS["C01"] = {
         {"bin": "hv", "args": ["c01"]},
         {"bin": "hvt", "args": ["c01"]},
     ],
-    "min": {"quick": {"responses_judged": 1000, "keep_alive_continuations": 100, "closes_observed": 50, "malformed_answered_400": 20, "idle_answered_408": 4, "handler_logs_matched": 300, "panic_connections_closed": 10, "half_close_endings_silent": 50, "zero_request_connections_silent": 10},
+    "min": {"quick": {"responses_judged": 1000, "keep_alive_continuations": 100, "closes_observed": 50, "malformed_answered_400": 20, "idle_answered_408": 4, "handler_logs_matched": 300, "panic_connections_closed": 10, "half_close_endings_silent": 50, "zero_request_connections_silent": 10, "big_responses_intact": 8},
             "thorough": {"responses_judged": 20_000}},
     "assumptions": [],
     "level_text": "Generated request scripts are played over real TCP connections against real Apps (threaded and tokio) under several segmentations, lock-step and pipelined; every byte received is parsed by a strict HTTP reference reader and compared with a reference model of the expected response sequence and connection disposition, and the handler-side log is compared with what was sent.",
